@@ -77,7 +77,8 @@ Qed.
 Lemma aw_set_transmission p s : allwf s -> allwf (fst (set_transmission p s)).
 Proof.
   intros H. unfold set_transmission. destruct p; [exact H|].
-  destruct (if first then Some [] else incoming (sr (nd s))); [|exact H]. destruct last; exact H.
+  destruct (if first then Some [] else incoming (sr (nd s))); [|exact H].
+  destruct last; [destruct (snap_ahead _ _)|]; exact H.
 Qed.
 
 Lemma aw_load_dump e cl s : allwf s -> allwf (load_dump e cl s).
